@@ -10,14 +10,15 @@ CARD = "urn:ietf:params:xml:ns:carddav"
 CS = "http://calendarserver.org/ns/"
 ICAL = "http://apple.com/ns/ical/"
 INF = "http://inf-it.com/ns/ab/"
+XNS = "http://example.com/ns/xv/"  # properties the server does not know
 
 NSDECL = (
     f'xmlns:D="{DAV}" xmlns:C="{CAL}" xmlns:A="{CARD}" xmlns:S="{CS}" '
-    f'xmlns:I="{ICAL}" xmlns:F="{INF}"'
+    f'xmlns:I="{ICAL}" xmlns:F="{INF}" xmlns:X="{XNS}"'
 )
 XML_CT = ("Content-Type", "application/xml; charset=utf-8")
 
-PREFIX = {DAV: "D", CAL: "C", CARD: "A", CS: "S", ICAL: "I", INF: "F"}
+PREFIX = {DAV: "D", CAL: "C", CARD: "A", CS: "S", ICAL: "I", INF: "F", XNS: "X"}
 
 
 def qn(clark):
@@ -34,15 +35,27 @@ def propfind_body(props=None, allprop=False):
     return f'<?xml version="1.0" encoding="utf-8"?><D:propfind {NSDECL}>{inner}</D:propfind>'.encode()
 
 
-def proppatch_body_ordered(instr):
-    """instr: [("set", clark, text) | ("remove", clark)] in document order."""
+def proppatch_body_ordered(instr, grouped=False):
+    """instr: [("set", clark, text) | ("remove", clark)] in document order; grouped: neighbouring
+    instructions of one kind share a DAV:set / DAV:remove and its DAV:prop element."""
     parts = []
+    kinds = []
     for it in instr:
         if it[0] == "set":
             inner = it[2][1] if isinstance(it[2], (tuple, list)) else xesc(it[2])
-            parts.append(f"<D:set><D:prop><{qn(it[1])}>{inner}</{qn(it[1])}></D:prop></D:set>")
+            parts.append(f"<{qn(it[1])}>{inner}</{qn(it[1])}>")
         else:
-            parts.append(f"<D:remove><D:prop><{qn(it[1])}/></D:prop></D:remove>")
+            parts.append(f"<{qn(it[1])}/>")
+        kinds.append("set" if it[0] == "set" else "remove")
+    out = []
+    i = 0
+    while i < len(parts):
+        j = i + 1
+        while grouped and j < len(parts) and kinds[j] == kinds[i]:
+            j += 1
+        out.append(f"<D:{kinds[i]}><D:prop>" + "".join(parts[i:j]) + f"</D:prop></D:{kinds[i]}>")
+        i = j
+    parts = out
     return (f'<?xml version="1.0" encoding="utf-8"?><D:propertyupdate {NSDECL}>' + "".join(parts) + "</D:propertyupdate>").encode()
 
 
